@@ -59,6 +59,7 @@ STATES = [(f, e) for f in FATES for e in (1, 0)]
 CIES = ["default", "personality", "signal"]
 SLOT_OBJ = {0: "a", 1: "a", 2: "b", 3: "b"}
 COPY_CODE = {"m": 0, "d": 1, "x": 2}
+PLT_SECTIONS = (".plt", ".plt.sec", ".plt.got", ".iplt")
 AUG = {"default": "zR", "personality": "zPR", "signal": "zRS"}
 
 
@@ -256,6 +257,11 @@ def judge(path, m, copies):
     per_copy = {}
     for f in fdes:
         cid = addr2copy.get(f.pc_begin)
+        if cid is None and any(s.name in PLT_SECTIONS and s.sh_addr <= f.pc_begin and
+                               f.pc_begin + f.pc_range <= s.sh_addr + s.sh_size
+                               for s in e.sections):
+            st["plt_fdes"] = st.get("plt_fdes", 0) + 1       # linker-made code, linker-made FDE
+            continue
         if cid is None:
             if f.pc_begin == 0:
                 cls = "pc-zero"
@@ -298,7 +304,11 @@ def judge(path, m, copies):
                           f"FDE in its input and has {n} in the output"))
     st["retained_with_fde"] = n_expected
     st["retained"] = len(addr2copy)
-    # ---- .eh_frame_hdr
+    return check_hdr(e, sec, fdes, hdr_on, v, st)
+
+
+def check_hdr(e, sec, fdes, hdr_on, v, st):
+    """The .eh_frame_hdr part of the oracle (independent of how the program was generated)."""
     hsec = e.section(".eh_frame_hdr")
     hseg = [p for p in e.segments if p.p_type == elfread.PT_GNU_EH_FRAME]
     if not hdr_on:
@@ -323,9 +333,7 @@ def judge(path, m, copies):
     raw = hsec.data
     if h.fde_count is None:                   # count and table omitted (GNU ld without FDEs)
         h = h._replace(fde_count=0)
-        if len(raw) != 8:
-            v.append(("hdr:size", f"section size {len(raw)} with the table omitted"))
-        raw = raw + bytes(4)
+        raw = None
     elif raw[1:4] != bytes([0x1b, 0x03, 0x3b]):
         v.append(("machinery:hdr-encodings", f"encodings {raw[1:4].hex()} (expected 1b 03 3b)"))
     if sec is None:
@@ -338,7 +346,7 @@ def judge(path, m, copies):
     if h.fde_count != len(fdes):
         v.append((f"hdr:fde-count:{'more' if h.fde_count > len(fdes) else 'fewer'}",
                   f"fde_count {h.fde_count}, .eh_frame has {len(fdes)} FDEs"))
-    if 12 + 8 * (h.fde_count or 0) != len(raw):
+    if raw is not None and 12 + 8 * h.fde_count != len(raw):
         v.append(("hdr:size", f"section size {len(raw)} for fde_count {h.fde_count}"))
     by_addr = {f.vaddr: f for f in fdes}
     prev = None
@@ -484,7 +492,8 @@ def family(thorough):
                     fam.append((states, cie, gc, "exe", 1))
                 fam.append((states, cie, 1, "shared", 1))
     else:
-        for states in multisets():
+        for i, states in enumerate(multisets()):
+            states = states[i % 4:] + states[:i % 4]       # vary which object gets which state
             for gc in (1, 0):
                 fam.append((states, "default", gc, "exe", 1))
             fam.append((states, "default", 1, "shared", 1))
@@ -504,33 +513,43 @@ UNW_MAIN = r"""
 #define _GNU_SOURCE
 #include <unwind.h>
 #include <stdio.h>
-extern void fa(void), fb(void), fc(void);
+extern void fa(void);
 extern char fa_start[], fa_end[], fb_start[], fb_end[], fc_start[], fc_end[];
-static _Unwind_Reason_Code cb(struct _Unwind_Context *c, void *arg) {
-  unsigned long ip = _Unwind_GetIP(c); const char *n = "?";
-  if (ip >= (unsigned long)fa_start && ip < (unsigned long)fa_end) n = "fa";
-  else if (ip >= (unsigned long)fb_start && ip < (unsigned long)fb_end) n = "fb";
-  else if (ip >= (unsigned long)fc_start && ip < (unsigned long)fc_end) n = "fc";
-  else if (ip >= (unsigned long)&cb - 4096 && 0) n = "x";
-  int *k = arg; if (n[0] != '?' || *k < 8) printf("%s\n", n); (*k)++;
-  return *k > 12 ? _URC_END_OF_STACK : _URC_NO_REASON;
+static int in(unsigned long ip, char *s, char *e) {
+  return ip >= (unsigned long)s && ip < (unsigned long)e;
 }
-void leaf(void) { int k = 0; _Unwind_Backtrace(cb, &k); fflush(stdout); }
+static _Unwind_Reason_Code cb(struct _Unwind_Context *c, void *arg) {
+  unsigned long ip = _Unwind_GetIP(c);
+  int *k = arg;
+  if (in(ip, fa_start, fa_end)) puts("fa");
+  else if (in(ip, fb_start, fb_end)) puts("fb");
+  else if (in(ip, fc_start, fc_end)) puts("fc");
+  return ++*k > 16 ? _URC_END_OF_STACK : _URC_NO_REASON;
+}
+void leaf(void) { int k = 0; _Unwind_Backtrace(cb, &k); printf("frames=%d\n", k > 3); fflush(stdout); }
 int main(void) { fa(); return 0; }
 """
 
 
-def unw_frame(name, callee, comdat=False, extra=""):
-    sec = (f'.section .text.{name},"axG",@progbits,{name},comdat\n.weak {name}\n' if comdat
-           else f'.section .text.{name},"ax",@progbits\n.globl {name}\n')
-    return (f"{sec}.globl {name}_start\n.globl {name}_end\n.type {name},@function\n"
-            f"{name}_start:\n{name}:\n .cfi_startproc\n sub $24, %rsp\n .cfi_adjust_cfa_offset 24\n"
-            f" call {callee}\n add $24, %rsp\n .cfi_adjust_cfa_offset -24\n ret\n .cfi_endproc\n"
-            f"{name}_end:\n.size {name},.-{name}\n{extra}")
+def unw_frame(name, callee, comdat=False):
+    """A hand-written frame (no frame pointer: only the CFI says where the return address is)."""
+    if comdat:
+        sec = f'.section .text.{name},"axG",@progbits,{name},comdat\n'
+        bind = ".weak"
+    else:
+        sec = f'.section .text.{name},"ax",@progbits\n'
+        bind = ".globl"
+    return (f"{sec}{bind} {name}\n{bind} {name}_start\n{bind} {name}_end\n"
+            f".type {name},@function\n{name}_start:\n{name}:\n .cfi_startproc\n"
+            f" sub $40, %rsp\n .cfi_adjust_cfa_offset 40\n call {callee}\n"
+            f" add $40, %rsp\n .cfi_adjust_cfa_offset -40\n ret\n .cfi_endproc\n"
+            f"{name}_end:\n.size {name},.-{name}\n")
 
 
-def unwinder_test(chk, base):
-    """gcc -static with wild (via -B) and with GNU ld; both must print fa fb fc frames."""
+def unwinder_test(base):
+    """gcc -static with wild (via -B<dir with ld -> wild>) and with GNU ld: libgcc's
+    _Unwind_Backtrace, started in leaf(), must walk through fc, fb (COMDAT, defined in two objects)
+    and fa, which are surrounded by unreferenced functions with FDEs that --gc-sections drops."""
     d = os.path.join(base, "unw")
     os.makedirs(os.path.join(d, "B"), exist_ok=True)
     os.symlink(vlib.WILD, os.path.join(d, "B", "ld"))
@@ -543,25 +562,33 @@ def unwinder_test(chk, base):
         "b2.s": dead.format(4) + unw_frame("fb", "fc", comdat=True),
         "c.s": unw_frame("fc", "leaf") + dead.format(5),
     }
-    for n, s in files.items():
+    for n, src in files.items():
         with open(os.path.join(d, n), "w") as f:
-            f.write(s.replace("fb_start:", "fb_start:").replace(
-                ".globl fb_start\n.globl fb_end\n", ".weak fb_start\n.weak fb_end\n"))
+            f.write(src)
     res = {}
     nproc = 0
-    for tag, extra in (("wild", ["-B" + os.path.join(d, "B")]), ("ld", [])):
+    for tag, extra in (("wild+hdr", ["-B" + os.path.join(d, "B"), "-Wl,--eh-frame-hdr"]),
+                       ("wild-nohdr", ["-B" + os.path.join(d, "B"), "-Wl,--no-eh-frame-hdr"]),
+                       ("ld+hdr", ["-Wl,--eh-frame-hdr"]), ("ld-nohdr", ["-Wl,--no-eh-frame-hdr"])):
         exe = os.path.join(d, "prog_" + tag)
-        r = subprocess.run(["gcc", "-static", "-O1", "-fno-omit-frame-pointer",
-                            "-fasynchronous-unwind-tables", *extra, "-Wl,--gc-sections",
-                            "-o", exe, "main.c", "a.s", "b.s", "b2.s", "c.s"], cwd=d,
-                           stdout=subprocess.PIPE, stderr=subprocess.PIPE)
-        nproc += 5
+        r = subprocess.run(["gcc", "-static", "-O1", "-fasynchronous-unwind-tables", *extra,
+                            "-Wl,--gc-sections", "-o", exe, "main.c", "a.s", "b.s", "b2.s", "c.s"],
+                           cwd=d, stdout=subprocess.PIPE, stderr=subprocess.PIPE)
+        nproc += 8
         if r.returncode != 0:
-            res[tag] = ("link-failed", r.stderr.decode()[-400:])
+            res[tag] = ["link-failed", r.stderr.decode()[-400:]]
             continue
         p = subprocess.run([exe], stdout=subprocess.PIPE, stderr=subprocess.PIPE, timeout=20)
         nproc += 1
-        res[tag] = (p.returncode, p.stdout.decode().split())
+        res[tag] = [p.returncode, p.stdout.decode().split()]
+        if tag == "wild+hdr":                 # the generic part of the oracle on a real program
+            e = elfread.Elf(exe)
+            try:
+                fdes = [r for r in e.eh_frame() if isinstance(r, elfread.FDE)]
+                v, st = check_hdr(e, e.section(".eh_frame"), fdes, True, [], {})
+            except elfread.ElfError as ex:
+                v, fdes = [("eh_frame:malformed", str(ex))], []
+            res["wild+hdr:static-glibc-program"] = {"fdes": len(fdes), "violations": v[:5]}
     return res, nproc, files
 
 
@@ -615,8 +642,17 @@ def main():
     samples = []
     unw = None
     with vlib.scratch("c10") as base:
+        import time
+        phase, t_ph = {}, time.time()
+
+        def lap(name):
+            nonlocal t_ph
+            phase[name] = round(time.time() - t_ph, 1)
+            t_ph = time.time()
+
         n_src, n_new, n_ar = prepare(fam + sweep, base)
         nsub += n_new
+        lap("assemble+archives")
         results = wildrun.pmap(run_member, [(base, m, None, None, None) for m in fam], chunksize=16)
         for m, rc, msg, viol, st, _dig in results:
             n_eval += 1
@@ -642,6 +678,7 @@ def main():
                 sigs.add((state_str(m[0]), m[1], m[2], m[3], m[4]))
             if len(samples) < 3 and 0 < st.get("n_fde", 0) < n_in and m[0][0][0] != m[0][1][0]:
                 samples.append(dict(describe(m), flags=member_flags(m), stats=st))
+        lap("family")
         # ---- thread-count sweep
         cfgs = [(t, fpg) for t in (1, 2, 4, 16) for fpg in (None, "1")]
         items = [(base, m, ({"WILD_FILES_PER_GROUP": fpg} if fpg else {}), t, None)
@@ -663,9 +700,10 @@ def main():
                 if not key.startswith("machinery:"):
                     chk.violation(key, f"{what}; member {describe(m)} threads={t} env={env}",
                                   replay_dict(m, {"threads": t, "env": env}))
+        lap("sweep")
         # ---- GNU ld on a sample: validates generator + oracle (never a verdict about wild)
-        step = 16 if chk.thorough else 11
-        ref = [m for i, m in enumerate(fam) if i % step == 0][:600 if chk.thorough else 120]
+        step = 16 if chk.thorough else 22
+        ref = [m for i, m in enumerate(fam) if i % step == 0][:600 if chk.thorough else 60]
         ref_bad = []
         for m, rc, msg, viol, st in vlib.pmap(run_ld, [(base, m) for m in ref], chunksize=4):
             nsub += 1
@@ -676,20 +714,30 @@ def main():
         if ref_bad:
             chk.machinery(f"GNU ld's output fails the oracle on {len(ref_bad)} sample members "
                           f"(generator or oracle defect): {ref_bad[:2]}")
+        lap("gnu-ld-reference")
         # ---- native unwinder
         if chk.thorough:
-            unw, np_, unw_files = unwinder_test(chk, base)
+            unw, np_, unw_files = unwinder_test(base)
             nsub += np_
-            want = ["fc", "fb", "fa"]
-            if unw.get("ld", (None, None))[1] != want:
-                chk.machinery(f"unwinder test: GNU ld reference does not give {want}: {unw}")
-            if unw["wild"][0] == "link-failed":
-                chk.violation("unwinder:link-failed", f"gcc -static -B<wild> failed: {unw['wild'][1]}",
-                              {"files": unw_files, "how": "see unwinder_test in checks/c10.py"})
-            elif unw["wild"][1] != want:
-                chk.violation("unwinder:frames", f"_Unwind_Backtrace saw {unw['wild']} (GNU ld: "
-                              f"{unw['ld']})", {"files": unw_files,
-                                                "how": "see unwinder_test in checks/c10.py"})
+            want = ["fc", "fb", "fa", "frames=1"]
+            for key, what in unw.get("wild+hdr:static-glibc-program", {}).get("violations", []):
+                chk.violation("unwinder:glibc-program:" + key, what,
+                              {"files": unw_files, "how": "gcc -static -B<dir with ld -> wild> "
+                               "-Wl,--eh-frame-hdr main.c a.s b.s b2.s c.s; readelf "
+                               "--debug-dump=frames ; .eh_frame_hdr table vs FDEs"})
+            for mode in ("+hdr", "-nohdr"):
+                if unw["ld" + mode][1] != want:
+                    chk.machinery(f"unwinder test: GNU ld reference does not give {want}: {unw}")
+                w = unw["wild" + mode]
+                flag = {"+hdr": "--eh-frame-hdr", "-nohdr": "--no-eh-frame-hdr"}[mode]
+                how = {"files": unw_files, "how": "gcc -static -O1 -fasynchronous-unwind-tables "
+                       f"-B<dir with ld -> wild> -Wl,{flag} -Wl,--gc-sections main.c a.s b.s b2.s "
+                       "c.s && ./a.out"}
+                if w[0] == "link-failed":
+                    chk.violation(f"unwinder{mode}:link-failed", f"gcc -static -B<wild> failed: {w[1]}", how)
+                elif w[1] != want:
+                    chk.violation(f"unwinder{mode}:frames", f"_Unwind_Backtrace saw {w} (GNU ld: "
+                                  f"{unw['ld' + mode]})", how)
     if not samples:
         samples.append(dict(describe(fam[0]), flags=member_flags(fam[0])))
     chk.coverage = {
@@ -704,7 +752,7 @@ def main():
         "family": ("all 8^4 ordered slot states x {gc,nogc} x {exe,shared} x {hdr,no hdr} with the "
                    "default CIE; x {personality, signal} CIE shapes with (gc,exe,hdr) (nogc,exe,hdr) "
                    "(gc,shared,hdr)") if chk.thorough else
-                  ("330 multisets of slot states (assigned to slots in sorted order), default CIE: "
+                  ("330 multisets of slot states (multiset number i assigned to the slots rotated by i mod 4), default CIE: "
                    "(gc,exe,hdr) (nogc,exe,hdr) (gc,shared,hdr) (gc,exe,no hdr)"),
         "links": n_eval + n_sweep,
         "link_failed": link_failed,
@@ -719,6 +767,7 @@ def main():
         "hdr_requested_but_absent_with_fdes": hdr_absent,
         "fate_deviations_from_design": deviations,
         "native_unwinder": unw,
+        "phase_wall_s": phase,
         "thinning": "none" if chk.thorough else
                     "slot order reduced to multisets; kind/hdr/gc not fully crossed; default CIE only; "
                     "sweep = lexicographically first 50 of {R1,G1,C1}^4",
